@@ -1092,3 +1092,156 @@ Proof.
     destruct (db_get (purge d now) k) eqn:G; [reflexivity|].
     apply wf_ttl_none; [apply db_wf_purge; exact W|exact G].
 Qed.
+
+(* ---- 3b: the commands that change deadlines ---- *)
+(* unfolding a step whose command name is known *)
+Lemma exec_unfold d now nowms c rest hint :
+  exec d now nowms (c :: rest) hint =
+  dispatch families (purge d now) now nowms (lower c) (c :: rest) hint.
+Proof. reflexivity. Qed.
+
+Ltac exec_named E :=
+  rewrite exec_unfold, E; cbv beta iota delta [dispatch families strings_dispatch lists_dispatch];
+  repeat match goal with
+  | |- context [is ?a ?b] =>
+    let v := eval vm_compute in (is a b) in change (is a b) with v; cbv iota
+  end.
+
+(* TTL: -2 for a key that is not visible, -1 without deadline, else the remaining seconds *)
+Theorem exec_ttl_reply d now nowms c k hint : db_wf d -> lower c = B "ttl" ->
+  exec d now nowms [c; k] hint =
+  (RInt (match view d now k with
+         | None => -2
+         | Some (_, None) => -1
+         | Some (_, Some t) => t - now
+         end), purge d now).
+Proof.
+  intros W E. exec_named E. unfold exec_ttl.
+  rewrite <- (raw_view_purge d now k W). unfold raw_view.
+  destruct (db_get (purge d now) k); [|reflexivity].
+  destruct (db_ttl (purge d now) k); reflexivity.
+Qed.
+
+(* a key is visible exactly before its deadline *)
+Lemma view_live d now k v t : db_get d k = Some v -> db_ttl d k = Some t -> now < t ->
+  view d now k = Some (v, Some t).
+Proof.
+  intros G T L. unfold view, expired. rewrite G, T.
+  replace (t <=? now) with false by (symmetry; apply Z.leb_gt; exact L). reflexivity.
+Qed.
+Lemma view_dead d now k t : db_ttl d k = Some t -> t <= now -> view d now k = None.
+Proof.
+  intros T L. unfold view, expired. rewrite T.
+  replace (t <=? now) with true by (symmetry; apply Z.leb_le; exact L).
+  destruct (db_get d k); reflexivity.
+Qed.
+Lemma view_nodeadline d now k v : db_get d k = Some v -> db_ttl d k = None ->
+  view d now k = Some (v, None).
+Proof. intros G T. unfold view, expired. rewrite G, T. reflexivity. Qed.
+
+(* ---- SET ---- *)
+(* the deadline SET leaves on the key, given the parsed options and the deadline the key had:
+   EXAT n -> n; PX n -> now + ceil(n/1000); EX n -> now + n; KEEPTTL -> unchanged; else none *)
+Definition set_deadline (now : Z) (o : setopts) (cur : option Z) : option Z :=
+  match o_exat o with Some n => Some n | None =>
+  match o_px o with Some n => Some (now + (n + 999) / 1000) | None =>
+  match o_ex o with Some n => Some (now + n) | None =>
+  if o_keepttl o then cur else None end end end.
+
+Lemma set_apply_ttl_view p now k o v : db_get p k = Some v ->
+  raw_view (set_apply_ttl p now k o) k = Some (v, set_deadline now o (db_ttl p k)).
+Proof.
+  intros G. unfold set_apply_ttl, set_deadline, raw_view.
+  destruct (o_exat o), (o_px o), (o_ex o), (o_keepttl o);
+    repeat (rewrite ?db_get_set_ttl, ?db_ttl_set_ttl, ?db_get_del_ttl, ?db_ttl_del_ttl, ?G,
+            ?bytes_eqb_refl; cbn [isSome andb]); reflexivity.
+Qed.
+
+Lemma set_apply_ttl_other p now k o k0 : k0 <> k ->
+  raw_view (set_apply_ttl p now k o) k0 = raw_view p k0.
+Proof.
+  intros N. apply bytes_eqb_neq in N. unfold set_apply_ttl, raw_view.
+  destruct (o_exat o), (o_px o), (o_ex o), (o_keepttl o);
+    repeat (rewrite ?db_get_set_ttl, ?db_ttl_set_ttl, ?db_get_del_ttl, ?db_ttl_del_ttl, ?N,
+            ?andb_false_r); reflexivity.
+Qed.
+
+(* the view of the key decides whether SET writes: NX needs it absent, XX present *)
+Definition set_writes (o : setopts) (cur : option (value * option Z)) : Prop :=
+  match cur with
+  | None => o_xx o = false
+  | Some (VStr _, _) => o_nx o = false
+  | Some _ => False
+  end.
+Definition set_reply (o : setopts) (cur : option (value * option Z)) : reply :=
+  if o_get o then match cur with Some (VStr old, _) => RBulk old | _ => RNil end else rOK.
+
+Theorem exec_set_writes d now nowms c k v opts o hint : db_wf d -> lower c = B "set" ->
+  set_parse opts setopts0 = Some o ->
+  set_conflict o || ex_overflow now (o_ex o) = false ->
+  set_writes o (view d now k) ->
+  let res := exec d now nowms (c :: k :: v :: opts) hint in
+  fst res = set_reply o (view d now k) /\
+  raw_view (snd res) k = Some (VStr v, set_deadline now o (deadline_of (view d now k))) /\
+  forall k0, k0 <> k -> raw_view (snd res) k0 = view d now k0.
+Proof.
+  intros W E P C S. cbv zeta. exec_named E. unfold exec_set. rewrite P, C.
+  unfold set_writes, set_reply in *. rewrite <- !(raw_view_purge d now k W) in *.
+  set (p := purge d now) in *.
+  assert (F : forall k0, k0 <> k ->
+            raw_view (set_apply_ttl (db_set p k (VStr v)) now k o) k0 = view d now k0).
+  { intros k0 N. rewrite set_apply_ttl_other by exact N. rewrite raw_view_set_other by exact N.
+    apply raw_view_purge. exact W. }
+  assert (V : forall cur, db_ttl p k = cur ->
+            raw_view (set_apply_ttl (db_set p k (VStr v)) now k o) k =
+            Some (VStr v, set_deadline now o cur)).
+  { intros cur <-. rewrite (set_apply_ttl_view _ now k o (VStr v)); [reflexivity|].
+    rewrite db_get_set, bytes_eqb_refl. reflexivity. }
+  assert (RV : raw_view p k = match db_get p k with None => None | Some v => Some (v, db_ttl p k) end)
+    by reflexivity.
+  rewrite RV in *. clear RV. unfold deadline_of.
+  destruct (db_get p k) as [[old| | | | |]|] eqn:G; try contradiction.
+  - rewrite S. cbn [fst snd]. split; [destruct (o_get o); reflexivity|]. split; [apply V; reflexivity|exact F].
+  - rewrite S. cbn [fst snd]. split; [destruct (o_get o); reflexivity|]. split; [|exact F].
+    apply V. apply wf_ttl_none; [apply db_wf_purge; exact W|exact G].
+Qed.
+
+(* condition not met (NX on a visible key, XX on an invisible one), wrong type, or an argument
+   error: nothing is written and no deadline changes *)
+Theorem exec_set_skips d now nowms c k v opts hint : db_wf d -> lower c = B "set" ->
+  (forall o, set_parse opts setopts0 = Some o ->
+             set_conflict o || ex_overflow now (o_ex o) = false -> ~ set_writes o (view d now k)) ->
+  snd (exec d now nowms (c :: k :: v :: opts) hint) = purge d now.
+Proof.
+  intros W E H. exec_named E. unfold exec_set.
+  destruct (set_parse opts setopts0) as [o|] eqn:P; [|reflexivity].
+  destruct (set_conflict o || ex_overflow now (o_ex o)) eqn:C; [reflexivity|].
+  specialize (H o eq_refl C). unfold set_writes in H.
+  rewrite <- (raw_view_purge d now k W) in H. unfold raw_view in H.
+  destruct (db_get (purge d now) k) as [[old| | | | |]|]; try reflexivity.
+  - destruct (o_nx o); [reflexivity|]. exfalso; apply H; reflexivity.
+  - destruct (o_xx o); [reflexivity|]. exfalso; apply H; reflexivity.
+Qed.
+
+(* PX: the deadline second is the one containing now_ms + n, or the one after it *)
+Lemma px_deadline_granularity nowms n :
+  0 < n ->
+  (nowms + n) / 1000 <= nowms / 1000 + (n + 999) / 1000 <= (nowms + n) / 1000 + 1.
+Proof.
+  intros Hn.
+  pose proof (Z.div_mod nowms 1000 ltac:(lia)) as D1.
+  pose proof (Z.mod_pos_bound nowms 1000 ltac:(lia)) as B1.
+  pose proof (Z.div_mod n 1000 ltac:(lia)) as D2.
+  pose proof (Z.mod_pos_bound n 1000 ltac:(lia)) as B2.
+  set (a := nowms / 1000) in *. set (r := nowms mod 1000) in *.
+  set (q := n / 1000) in *. set (s := n mod 1000) in *.
+  assert (E1 : (n + 999) / 1000 = q + (if s =? 0 then 0 else 1)).
+  { destruct (s =? 0) eqn:Z0.
+    - apply Z.eqb_eq in Z0. symmetry. apply (Z.div_unique (n + 999) 1000 (q + 0) 999); lia.
+    - apply Z.eqb_neq in Z0. symmetry. apply (Z.div_unique (n + 999) 1000 (q + 1) (s - 1)); lia. }
+  assert (E2 : (nowms + n) / 1000 = a + q + (if r + s <? 1000 then 0 else 1)).
+  { destruct (r + s <? 1000) eqn:Z1.
+    - apply Z.ltb_lt in Z1. symmetry. apply (Z.div_unique (nowms + n) 1000 (a + q + 0) (r + s)); lia.
+    - apply Z.ltb_ge in Z1. symmetry. apply (Z.div_unique (nowms + n) 1000 (a + q + 1) (r + s - 1000)); lia. }
+  rewrite E1, E2. destruct (Z.eqb_spec s 0), (Z.ltb_spec (r + s) 1000); lia.
+Qed.
